@@ -268,3 +268,77 @@ def number_field_of(f, e, depth=0):
             if r is not None:
                 return r
     return None
+
+
+class _Unknown(Exception):
+    pass
+
+
+def _ev_neutral(e):
+    """Truth value of a byte-class predicate for a byte that is neither a digit nor a separator."""
+    e = strip_casts(e)
+    if e[0] == "k" and isinstance(e[1], bool):
+        return e[1]
+    if e[0] == "call" and last_seg(e[1]) in ("is_digit", "is_digit_separator"):
+        return False
+    if e[0] == "un" and e[1] == "Not":
+        return not _ev_neutral(e[2])
+    if e[0] == "bin" and e[1] in ("BitAnd", "BitOr"):
+        a, b = _ev_neutral(e[2]), _ev_neutral(e[3])
+        return (a and b) if e[1] == "BitAnd" else (a or b)
+    raise _Unknown(show(e))
+
+
+def neutral_value(g):
+    """Value of closure g (|&x| ..is_digit(x)..is_digit_separator(x)..) for a neutral byte, read off its
+    paths: the path whose tests are all consistent with is_digit = is_digit_separator = false."""
+    from rules.core import enum_paths, resolve_env
+    rets = {i for i, b in enumerate(g.blocks) if g.live(i) and b["t"]["k"] == "return"}
+    vals = set()
+    for t, atoms, env in enum_paths(g, 0, rets, want_env=True, resolve_atoms=True):
+        if all(_ev_neutral(e) == p for e, p in atoms):
+            r = env.get(0)
+            if r is None:
+                raise _Unknown("no result")
+            vals.add(r[1] if r[0] == "const" else _ev_neutral(resolve_env(r[1], env)))
+    if len(vals) != 1:
+        raise _Unknown("ambiguous %s" % sorted(vals))
+    return vals.pop()
+
+
+def rule_end_of_buffer_neutral(col, facts):
+    """SIB-eob: every look-around in the separator predicates has the form
+    `slc.get(i).map_or(D, |&x| P(x))` with P built from is_digit / is_digit_separator.  Running off either end
+    of the buffer must classify like a byte that is neither digit nor separator (sign, point, exponent
+    character, junk - what the other end of a component looks like when it is *not* the end of the buffer):
+    D == P(neutral).  Otherwise the same separator is accepted or rejected depending on whether the component
+    happens to touch the end of the input.  (172 of the 178 sites agreed when the rule was written; the two
+    deviating macro arms were genuine defects, DESIGN F14/F15.)"""
+    if "format" not in facts.config:
+        return
+    R = "SIB-eob"
+    n = 0
+    for f in facts.all_fns():
+        if f.crate != "lexical_util" or "::skip::" not in f.short:
+            continue
+        for bb, c, a, d, t in f.calls():
+            if last_seg(callee_name(c)) != "map_or" or len(a) != 3 or a[1][0] != "k" or not isinstance(a[1][1].get("v"), bool):
+                continue
+            clo = strip_casts(op_expr(f, a[2]))
+            if clo[0] != "agg" or not (isinstance(clo[1], tuple) and clo[1][0] == "closure"):
+                continue
+            g = facts.by_short.get(clo[1][1])
+            if not g:
+                continue
+            try:
+                v = neutral_value(g[0])
+            except _Unknown as e:
+                continue                  # not a byte-class predicate
+            n += 1
+            macs = [m for m in f.macros(f.blocks[bb]["ts"]) if m.startswith("is_") or m.startswith("peek_")]
+            comp = f.short.split("::skip::")[1].split("<")[0] if "::skip::" in f.short else f.short
+            key = "%s:%s" % (comp, "/".join(dict.fromkeys(macs)) or "direct")
+            col.check(R, key, a[1][1]["v"] == v,
+                      "`slc.get(i).map_or(%s, pred)` but pred is %s for a byte that is neither digit nor separator: at the end (start) of the input this look-around answers differently from the same component followed (preceded) by any other character, so separators are accepted where the flags do not enable them" % (str(a[1][1]["v"]).lower(), str(v).lower()),
+                      f.loc(f.blocks[bb]["ts"]))
+    col.floor(R, "look-around sites with a byte-class predicate", n, 150)
